@@ -35,6 +35,9 @@ def gen_sched_case(rng, tier, kind=None, mode=None, static=False, many_to_one=No
     if kind == 'SP':
         case['table'] = [[f, rng.choice([1, 1, 2, 3, 5, 10])] for f in flows]
         rng.shuffle(case['table'])
+    elif kind == 'WFQ' and rng.random() < 0.3:
+        # fractional weights (shares that sum to at most 1) are as legal as integers
+        case['table'] = [[c, rng.choice([0.5, 0.25, 0.125, 0.0625])] for c in classes]
     elif kind in ('WFQ', 'DRR', 'WRR'):
         case['table'] = [[c, rng.choice([1, 1, 2, 3, 4])] for c in classes]
         if rng.random() < 0.5:
@@ -71,6 +74,14 @@ def gen_sched_case(rng, tier, kind=None, mode=None, static=False, many_to_one=No
                 ts[k] = rng.choice(deps[:k])
     wl = sorted([[ts[k], fl[k], sizes[k]] for k in range(n)], key=lambda x: x[0])
     case['workload'] = wl
+    if rng.random() < 0.3:
+        # a second, independent scheduler of the same kind in the same simulation, with the same class ids and its own
+        # traffic: its state must not leak into the one under observation
+        ts2 = gen_times(rng, rng.randint(1, 25), 'GRID' if mode != 'FLOAT' else 'FLOAT')
+        tab2 = [[c, rng.choice([1, 2, 3, 4]) if kind != 'VC' else rng.choice([0.125, 0.5, 2.0])] for c, _ in case['table']]
+        case['shadow'] = {'rate': rng.choice(GRID_RATES), 'table': tab2,
+                          'workload': [[t * scale if mode != 'DISTINCT' else t + 2.0 ** -21, rng.choice(flows),
+                                        rng.choice(sizes_pool)] for t in ts2]}
     if monitor is None:
         monitor = rng.random() < 0.25
     if monitor:
@@ -128,6 +139,12 @@ def run_sched(case):
                 tuple(sorted((c, v) for c, v in getattr(elem, 'deficit', {}).items())) if case['kind'] == 'DRR' else None)
     s.out = OutTap(w, 's', s, Recorder(w, 'sink'), post=counters)
     start_injector(w, InTap(w, 's', s, post=counters), [tuple(x) for x in case.get('workload', [])])
+    if case.get('shadow'):
+        sh = dict(case)
+        sh.update(case['shadow'])
+        s2, _f = build(w, sh)
+        s2.out = OutTap(w, 's2', s2, Recorder(w, 'sink2'))
+        start_injector(w, InTap(w, 's2', s2), [tuple(x) for x in sh.get('workload', [])], src='src2')
     mon = None
     if case.get('monitor'):
         m = case['monitor']
@@ -175,6 +192,8 @@ def parse(r):
     mode = case.get('mode', 'GRID')
     for rec in w.log:
         tag = rec[0]
+        if tag in ('IN', 'IN2', 'OUT') and rec[3] != 's':
+            continue
         if tag == 'IN':
             a = {'G': rec[1], 't': rec[2], 'pkt': rec[4], 'flow': rec[5][1], 'size': rec[5][3], 'fields': rec[5],
                  'cls': r.f2c(rec[5][1])}
